@@ -72,6 +72,10 @@ func (t *Teamserver) LinkAdd(ParentAgent *agent.Agent, LinkAgent *agent.Agent) e
 	if OldParentID, err := t.DB.ParentOf(int(LinkAgentID)); err == nil && OldParentID != int(ParentAgentID) {
 		if err = t.DB.LinkRemove(OldParentID, int(LinkAgentID)); err != nil {
 			logger.Error("Could not remove old link from database: " + err.Error())
+
+			// stored next to the old one, the new link gives the agent two stored parents:
+			// the next start lists it under both
+			return err
 		}
 	}
 
@@ -108,6 +112,9 @@ func (t *Teamserver) LinkAdd(ParentAgent *agent.Agent, LinkAgent *agent.Agent) e
 
 			if err := t.DB.LinkRemove(Link[0], Link[1]); err != nil {
 				logger.Error("Could not remove stale link from database: " + err.Error())
+
+				// stored next to the stale one, the new link closes a cycle at the next start
+				return err
 			}
 		}
 	}
